@@ -90,12 +90,13 @@ section bookkeeping
 variable {K C : Type} [CommSemiring K] [AddCommMonoid C] [Module K C]
 
 /-- the declaration of an RF pulse whose flip angle and phase both depend on two variables `a < b` -/
-def twoVarOp (d0 : C → C) (d1 : Param → C → C) (d2 : PPair → C → C) (a b : Var) (caA cpA caB cpB : K) : DOp K C where
+def twoVarOp (d0 : C → C) (d1 : Param → C → C) (d2 : PPair → C → C) (a b : Var) (caA cpA caB cpB : K)
+    (c2 : List (Param × K) := []) : DOp K C where
   derive0 := d0
   derive1 := d1
   derive2 := d2
   order1 := [(a, [("alpha", caA), ("phi", cpA)]), (b, [("alpha", caB), ("phi", cpB)])]
-  order2 := [((a, b), [])]
+  order2 := [((a, b), c2)]
   auto := false
   P2 := [("alpha", "alpha"), ("alpha", "phi"), ("phi", "phi")]
 
@@ -108,9 +109,10 @@ theorem pair_lt {a b : String} (h : a < b) : pair a b = (a, b) ∧ pair b a = (a
 
 /-- **what `_apply_order2` stores under (a, b)** for that declaration -/
 theorem twoVar_value (d0 : C → C) (h0 : d0 0 = 0) (d1 : Param → C → C) (d2 : PPair → C → C) (a b : Var) (hab : a < b)
-    (caA cpA caB cpB : K) (s Ja Jb H : C) :
-    val (applyOrder2 (modCar (K := K)) (twoVarOp d0 d1 d2 a b caA cpA caB cpB) s [(a, Ja), (b, Jb)] [((a, b), H)]) (a, b)
+    (caA cpA caB cpB : K) (c2 : List (Param × K)) (s Ja Jb H : C) :
+    val (applyOrder2 (modCar (K := K)) (twoVarOp d0 d1 d2 a b caA cpA caB cpB c2) s [(a, Ja), (b, Jb)] [((a, b), H)]) (a, b)
       = d0 H
+        + (c2.map (fun pc => pc.2 • d1 pc.1 s)).sum
         + (caB • d1 "alpha" Ja + cpB • d1 "phi" Ja)
         + (caA • d1 "alpha" Jb + cpA • d1 "phi" Jb)
         + ((caA * caB) • d2 ("alpha", "alpha") s + (caA * cpB) • d2 ("alpha", "phi") s
@@ -129,25 +131,28 @@ theorem twoVar_value (d0 : C → C) (h0 : d0 0 = 0) (d1 : Param → C → C) (d2
   have e0 : val (normalize [((a, b), H)]) (a, b) = H := by
     simp [Diff.normalize, pairOf, p1, Diff.insert, hasKey, Diff.val, lookup]
   -- no second-order coefficients declared
-  have eA : tot (termsA (modCar (K := K)) (twoVarOp d0 d1 d2 a b caA cpA caB cpB) s) (a, b) = 0 := by
-    simp [termsA, twoVarOp, tot]
+  have eA : tot (termsA (modCar (K := K)) (twoVarOp d0 d1 d2 a b caA cpA caB cpB c2) s) (a, b)
+      = (c2.map (fun pc => pc.2 • d1 pc.1 s)).sum := by
+    have hp : pairOf (a, b) = (a, b) := p1
+    simp only [termsA, twoVarOp, List.flatMap_cons, List.flatMap_nil, List.append_nil, hp]
+    rw [tot_map_const_key]; simp [modCar]
   -- products of first-order slopes with the second-derivative operators
-  have eB : tot (termsB (modCar (K := K)) (twoVarOp d0 d1 d2 a b caA cpA caB cpB) s) (a, b)
+  have eB : tot (termsB (modCar (K := K)) (twoVarOp d0 d1 d2 a b caA cpA caB cpB c2) s) (a, b)
       = (caA * caB) • d2 ("alpha", "alpha") s + (caA * cpB) • d2 ("alpha", "phi") s
         + (cpA * caB) • d2 ("alpha", "phi") s + (cpA * cpB) • d2 ("phi", "phi") s := by
-    rw [termsB_single _ s a b [] rfl hs]
-    have ga : order1Get (twoVarOp d0 d1 d2 a b caA cpA caB cpB) a = [("alpha", caA), ("phi", cpA)] := by
+    rw [termsB_single _ s a b c2 rfl hs]
+    have ga : order1Get (twoVarOp d0 d1 d2 a b caA cpA caB cpB c2) a = [("alpha", caA), ("phi", cpA)] := by
       simp [order1Get, twoVarOp, lookup]
-    have gb : order1Get (twoVarOp d0 d1 d2 a b caA cpA caB cpB) b = [("alpha", caB), ("phi", cpB)] := by
+    have gb : order1Get (twoVarOp d0 d1 d2 a b caA cpA caB cpB c2) b = [("alpha", caB), ("phi", cpB)] := by
       simp [order1Get, twoVarOp, lookup, hne]
     rw [ga, gb]
-    have s1 : supported (twoVarOp d0 d1 d2 a b caA cpA caB cpB) "alpha" "alpha" = true := by
+    have s1 : supported (twoVarOp d0 d1 d2 a b caA cpA caB cpB c2) "alpha" "alpha" = true := by
       simp (config := {decide := true}) [supported, twoVarOp]
-    have s2 : supported (twoVarOp d0 d1 d2 a b caA cpA caB cpB) "alpha" "phi" = true := by
+    have s2 : supported (twoVarOp d0 d1 d2 a b caA cpA caB cpB c2) "alpha" "phi" = true := by
       simp (config := {decide := true}) [supported, twoVarOp]
-    have s3 : supported (twoVarOp d0 d1 d2 a b caA cpA caB cpB) "phi" "alpha" = true := by
+    have s3 : supported (twoVarOp d0 d1 d2 a b caA cpA caB cpB c2) "phi" "alpha" = true := by
       simp (config := {decide := true}) [supported, twoVarOp]
-    have s4 : supported (twoVarOp d0 d1 d2 a b caA cpA caB cpB) "phi" "phi" = true := by
+    have s4 : supported (twoVarOp d0 d1 d2 a b caA cpA caB cpB c2) "phi" "phi" = true := by
       simp (config := {decide := true}) [supported, twoVarOp]
     have q1 : pair "alpha" "alpha" = ("alpha", "alpha") := by decide
     have q2 : pair "alpha" "phi" = ("alpha", "phi") := by decide
@@ -158,16 +163,16 @@ theorem twoVar_value (d0 : C → C) (h0 : d0 0 = 0) (d1 : Param → C → C) (d2
     abel
   have paa : pair a a = (a, a) := by simp [pair]
   have pbb : pair b b = (b, b) := by simp [pair]
-  have vc : varsCross (twoVarOp d0 d1 d2 a b caA cpA caB cpB) [(a, Ja), (b, Jb)] = [(a, b)] := by
+  have vc : varsCross (twoVarOp d0 d1 d2 a b caA cpA caB cpB c2) [(a, Ja), (b, Jb)] = [(a, b)] := by
     simp [varsCross, twoVarOp, dedup]
   have n1 : ((a, a) : VPair) ≠ (a, b) := by simp [hne]
   have n2 : ((b, b) : VPair) ≠ (a, b) := by simp [hne']
-  have eX1 : tot (termsX (modCar (K := K)) (twoVarOp d0 d1 d2 a b caA cpA caB cpB) [(a, Ja), (b, Jb)] (fun v1 v2 => v1 ≥ v2)) (a, b)
+  have eX1 : tot (termsX (modCar (K := K)) (twoVarOp d0 d1 d2 a b caA cpA caB cpB c2) [(a, Ja), (b, Jb)] (fun v1 v2 => v1 ≥ v2)) (a, b)
       = caA • d1 "alpha" Jb + cpA • d1 "phi" Jb := by
     unfold termsX
     rw [vc]
     simp [twoVarOp, paa, pbb, p1, p2, n1, n2, hge, hnge, tot, modCar]
-  have eX2 : tot (termsX (modCar (K := K)) (twoVarOp d0 d1 d2 a b caA cpA caB cpB) [(a, Ja), (b, Jb)] (fun v1 v2 => v1 ≤ v2)) (a, b)
+  have eX2 : tot (termsX (modCar (K := K)) (twoVarOp d0 d1 d2 a b caA cpA caB cpB c2) [(a, Ja), (b, Jb)] (fun v1 v2 => v1 ≤ v2)) (a, b)
       = caB • d1 "alpha" Ja + cpB • d1 "phi" Ja := by
     unfold termsX
     rw [vc]
@@ -211,6 +216,7 @@ theorem T_mixed_partial_exact (al ph : ℝ → ℝ) (caA cpA caB cpB y0 : ℝ) (
   intro env E d0 d1 d2
   have h0 : d0 0 = 0 := by apply PS.ext' <;> simp [d0, PS.mmul]
   rw [twoVar_value d0 h0 d1 d2 a b hab]
+  simp only [List.map_nil, List.sum_nil, add_zero]
   have hd : ∀ y i j, Defined (env y) (Coeff.T.mat i j) := fun y i j => rotation_defined _ i j
   have hm := mixed_step Coeff.T.mat al ph caA cpA caB cpB y0 hal hph hd s Ja Jb H hs hJ
   -- same function
@@ -240,6 +246,121 @@ theorem T_mixed_partial_exact (al ph : ℝ → ℝ) (caA cpA caB cpB y0 : ℝ) (
   apply PS.ext' <;>
   · simp only [d0, d1, d2, E, id, if_true, smul_eq_PSsmul, String.reduceEq, if_false, Prod.mk.injEq, and_true, and_false,
       PS.mmul, PS.smul, PS.add_fp, PS.add_fm, PS.add_z, q00, q01, q02, q10, q11, q12, q20, q21, q22]
+    ring
+
+/-! ### non-linear parameter expressions
+
+When the flip angle and the phase are non-linear functions of the two variables (as the `Sequence` layer produces), the
+slopes of `a` themselves move with `b`: `sa, sp : ℝ → ℝ` with derivatives `c2a = ∂²α/∂a∂b`, `c2p = ∂²φ/∂a∂b`, which
+the declaration carries as second-order coefficients `order2 = {(a, b): {alpha: c2a, phi: c2p}}`. -/
+
+theorem PSHasDeriv.rsmul {g : ℝ → ℝ} {g' y0 : ℝ} (hg : HasDerivAt g g' y0) {v : ℝ → PS ℂ} {v' : PS ℂ}
+    (hv : PSHasDeriv v v' y0) :
+    PSHasDeriv (fun y => PS.smul ((g y : ℝ) : ℂ) (v y)) (PS.smul ((g y0 : ℝ) : ℂ) v' + PS.smul ((g' : ℝ) : ℂ) (v y0)) y0 := by
+  obtain ⟨h1, h2, h3⟩ := hv
+  have hc := hg.ofReal_comp
+  refine ⟨(hc.mul h1).congr_deriv ?_, (hc.mul h2).congr_deriv ?_, (hc.mul h3).congr_deriv ?_⟩ <;>
+  · simp only [PS.smul, PS.add_fp, PS.add_fm, PS.add_z]; ring
+
+theorem PSHasDeriv.add' {u v : ℝ → PS ℂ} {u' v' : PS ℂ} {y0 : ℝ} (hu : PSHasDeriv u u' y0) (hv : PSHasDeriv v v' y0) :
+    PSHasDeriv (fun y => u y + v y) (u' + v') y0 :=
+  ⟨hu.1.add hv.1, hu.2.1.add hv.2.1, hu.2.2.add hv.2.2⟩
+
+/-- **mixed second derivative through a two-parameter matrix operator, non-linear dependence** -/
+theorem mixed_step_nl (M : Nat → Nat → Ex) (al ph sa sp : ℝ → ℝ) (caB cpB c2a c2p y0 : ℝ)
+    (hal : HasDerivAt al caB y0) (hph : HasDerivAt ph cpB y0) (hsa : HasDerivAt sa c2a y0) (hsp : HasDerivAt sp c2p y0)
+    (hd : ∀ i j, Defined (envOf [((al y0 : ℝ) : ℂ), ((ph y0 : ℝ) : ℂ)]) (M i j))
+    (s Ja : ℝ → PS ℂ) (Jb H : PS ℂ) (hs : PSHasDeriv s Jb y0) (hJ : PSHasDeriv Ja H y0) :
+    let env := fun y : ℝ => envOf [((al y : ℝ) : ℂ), ((ph y : ℝ) : ℂ)]
+    let E := fun (f : Ex → Ex) (i j : Nat) => eval (env y0) (f (M i j))
+    PSHasDeriv (fun y => PS.mmul (fun i j => eval (env y) (M i j)) (Ja y)
+                    + (PS.smul ((sa y : ℝ) : ℂ) (PS.mmul (fun i j => eval (env y) (d 0 (M i j))) (s y))
+                      + PS.smul ((sp y : ℝ) : ℂ) (PS.mmul (fun i j => eval (env y) (d 1 (M i j))) (s y))))
+      (PS.mmul (E id) H
+        + (PS.smul (c2a : ℂ) (PS.mmul (E (d 0)) (s y0)) + PS.smul (c2p : ℂ) (PS.mmul (E (d 1)) (s y0)))
+        + (PS.smul (caB : ℂ) (PS.mmul (E (d 0)) (Ja y0)) + PS.smul (cpB : ℂ) (PS.mmul (E (d 1)) (Ja y0)))
+        + (PS.smul ((sa y0 : ℝ) : ℂ) (PS.mmul (E (d 0)) Jb) + PS.smul ((sp y0 : ℝ) : ℂ) (PS.mmul (E (d 1)) Jb))
+        + (PS.smul (((sa y0 : ℝ) : ℂ) * caB) (PS.mmul (E (fun e => d 0 (d 0 e))) (s y0))
+          + PS.smul (((sp y0 : ℝ) : ℂ) * caB) (PS.mmul (E (fun e => d 0 (d 1 e))) (s y0))
+          + PS.smul (((sa y0 : ℝ) : ℂ) * cpB) (PS.mmul (E (fun e => d 1 (d 0 e))) (s y0))
+          + PS.smul (((sp y0 : ℝ) : ℂ) * cpB) (PS.mmul (E (fun e => d 1 (d 1 e))) (s y0)))) y0 := by
+  intro env E
+  let c : Nat → ℂ := fun j => match j with | 0 => (caB : ℂ) | 1 => (cpB : ℂ) | _ => 0
+  have henv : ∀ j, HasDerivAt (fun y => env y j) (c j) y0 := by
+    intro j
+    match j with
+    | 0 => simpa [env, envOf, c] using hal.ofReal_comp
+    | 1 => simpa [env, envOf, c] using hph.ofReal_comp
+    | (n + 2) => simpa [env, envOf, c] using hasDerivAt_const y0 (0 : ℂ)
+  have hc : ∀ j, 2 ≤ j → c j = 0 := by
+    intro j hj
+    match j with
+    | 0 => omega
+    | 1 => omega
+    | (n + 2) => rfl
+  have hcr : ∀ j, (starRingEnd ℂ) (c j) = c j := by
+    intro j
+    match j with
+    | 0 => simp [c]
+    | 1 => simp [c]
+    | (n + 2) => simp [c]
+  have hdM : ∀ i j, Defined (env y0) (M i j) := hd
+  have hd0 : ∀ i j, Defined (env y0) (d 0 (M i j)) := fun i j => defined_d _ 0 _ (hdM i j)
+  have hd1 : ∀ i j, Defined (env y0) (d 1 (M i j)) := fun i j => defined_d _ 1 _ (hdM i j)
+  have h1 := mat_step M env c 2 y0 henv hc hcr hdM Ja H hJ
+  have h2 := mat_step (fun i j => d 0 (M i j)) env c 2 y0 henv hc hcr hd0 s Jb hs
+  have h3 := mat_step (fun i j => d 1 (M i j)) env c 2 y0 henv hc hcr hd1 s Jb hs
+  rw [psSum_two] at h1 h2 h3
+  have h2' := PSHasDeriv.rsmul hsa h2
+  have h3' := PSHasDeriv.rsmul hsp h3
+  have hall := PSHasDeriv.add' h1 (PSHasDeriv.add' h2' h3')
+  obtain ⟨a1, a2, a3⟩ := hall
+  refine ⟨a1.congr_deriv ?_, a2.congr_deriv ?_, a3.congr_deriv ?_⟩ <;>
+  · simp only [PS.mmul, PS.smul, PS.add_fp, PS.add_fm, PS.add_z, E, id, c]
+    ring
+
+/-- **C03 end to end, RF pulse, mixed pair (a, b), non-linear parameter expressions**: the value `_apply_order2` stores
+    under `(a, b)` for the declaration `order1 = {a: {alpha: sa, phi: sp}, b: {alpha: caB, phi: cpB}}`,
+    `order2 = {(a, b): {alpha: c2a, phi: c2p}}` is the derivative with respect to `b` of the new first partial under
+    `a`, where the slopes `sa, sp` of `a` themselves depend on `b` with derivatives `c2a, c2p` -/
+theorem T_mixed_partial_exact_nl (al ph sa sp : ℝ → ℝ) (caB cpB c2a c2p y0 : ℝ) (a b : Var) (hab : a < b)
+    (hal : HasDerivAt al caB y0) (hph : HasDerivAt ph cpB y0) (hsa : HasDerivAt sa c2a y0) (hsp : HasDerivAt sp c2p y0)
+    (s Ja : ℝ → PS ℂ) (Jb H : PS ℂ) (hs : PSHasDeriv s Jb y0) (hJ : PSHasDeriv Ja H y0) :
+    let env := fun y : ℝ => envOf [((al y : ℝ) : ℂ), ((ph y : ℝ) : ℂ)]
+    let E := fun (f : Ex → Ex) (i j : Nat) => eval (env y0) (f (Coeff.T.mat i j))
+    let d0 : PS ℂ → PS ℂ := fun X => PS.mmul (E id) X
+    let d1 : Param → PS ℂ → PS ℂ := fun p X => if p = "alpha" then PS.mmul (E (d 0)) X else PS.mmul (E (d 1)) X
+    let d2 : PPair → PS ℂ → PS ℂ := fun pp X =>
+      if pp = ("alpha", "alpha") then PS.mmul (E (fun e => d 0 (d 0 e))) X
+      else if pp = ("alpha", "phi") then PS.mmul (E (fun e => d 1 (d 0 e))) X
+      else PS.mmul (E (fun e => d 1 (d 1 e))) X
+    PSHasDeriv (fun y => PS.mmul (fun i j => eval (env y) (Coeff.T.mat i j)) (Ja y)
+                    + (((sa y : ℝ) : ℂ) • PS.mmul (fun i j => eval (env y) (d 0 (Coeff.T.mat i j))) (s y)
+                      + ((sp y : ℝ) : ℂ) • PS.mmul (fun i j => eval (env y) (d 1 (Coeff.T.mat i j))) (s y)))
+      (Diff.val (applyOrder2 (modCar (K := ℂ))
+          (twoVarOp d0 d1 d2 a b ((sa y0 : ℝ) : ℂ) ((sp y0 : ℝ) : ℂ) (caB : ℂ) (cpB : ℂ) [("alpha", (c2a : ℂ)), ("phi", (c2p : ℂ))])
+          (s y0) [(a, Ja y0), (b, Jb)] [((a, b), H)]) (a, b)) y0 := by
+  intro env E d0 d1 d2
+  have h0 : d0 0 = 0 := by apply PS.ext' <;> simp [d0, PS.mmul]
+  rw [twoVar_value d0 h0 d1 d2 a b hab]
+  have hd : ∀ i j, Defined (env y0) (Coeff.T.mat i j) := fun i j => rotation_defined _ i j
+  have hm := mixed_step_nl Coeff.T.mat al ph sa sp caB cpB c2a c2p y0 hal hph hsa hsp hd s Ja Jb H hs hJ
+  refine hm.congr_deriv ?_
+  have hsy : ∀ i j, i < 3 → j < 3 → eval (envOf [((al y0 : ℝ) : ℂ), ((ph y0 : ℝ) : ℂ)]) (d 0 (d 1 (Coeff.T.mat i j))) = eval (envOf [((al y0 : ℝ) : ℂ), ((ph y0 : ℝ) : ℂ)]) (d 1 (d 0 (Coeff.T.mat i j))) :=
+    fun i j hi hj => T_mixed_symm _ i j hi hj
+  have q00 := hsy 0 0 (by norm_num) (by norm_num)
+  have q01 := hsy 0 1 (by norm_num) (by norm_num)
+  have q02 := hsy 0 2 (by norm_num) (by norm_num)
+  have q10 := hsy 1 0 (by norm_num) (by norm_num)
+  have q11 := hsy 1 1 (by norm_num) (by norm_num)
+  have q12 := hsy 1 2 (by norm_num) (by norm_num)
+  have q20 := hsy 2 0 (by norm_num) (by norm_num)
+  have q21 := hsy 2 1 (by norm_num) (by norm_num)
+  have q22 := hsy 2 2 (by norm_num) (by norm_num)
+  apply PS.ext' <;>
+  · simp only [d0, d1, d2, E, id, if_true, smul_eq_PSsmul, String.reduceEq, if_false, Prod.mk.injEq, and_true, and_false,
+      List.map_cons, List.map_nil, List.sum_cons, List.sum_nil,
+      PS.mmul, PS.smul, PS.add_fp, PS.add_fm, PS.add_z, PS.zero_fp, PS.zero_fm, PS.zero_z, q00, q01, q02, q10, q11, q12, q20, q21, q22]
     ring
 
 end EpgVerif.Props.C03
